@@ -853,6 +853,12 @@ func (p *bprover) defFacts(s *factSet, goal dfact) {
 						s.fs = append(s.fs, dfact{n, l.n, l.k})
 						push(l.n)
 					}
+					// a scanner that only moves forward from the position it is given: result >= argument
+					if isSignedInt(arg.Type()) && p.c.resultGeParam(cf, 0, j) {
+						a := p.lin(arg)
+						s.fs = append(s.fs, dfact{a.n, n, -a.k})
+						push(a.n)
+					}
 				}
 			}
 			if cf := x.Call.StaticCallee(); cf != nil && firstParty(cf) {
@@ -1253,12 +1259,34 @@ func (p *bprover) viaCalleeAt(goal dfact, at *ssa.BasicBlock) bool {
 	}
 	var call *ssa.Call
 	idx := map[string]int{}
+	lenIdx := map[string]int{}
 	var lens []string
 	for _, n := range []string{goal.a, goal.b} {
 		if n == "0" {
 			continue
 		}
 		if strings.HasPrefix(n, "len:") {
+			// the length of a result of the call, or (below) of one of its arguments
+			var cl *ssa.Call
+			switch x := p.vals[n].(type) {
+			case *ssa.Extract:
+				if c2, ok := x.Tuple.(*ssa.Call); ok {
+					cl = c2
+					lenIdx[n] = x.Index
+				}
+			case *ssa.Call:
+				if _, isB := x.Call.Value.(*ssa.Builtin); !isB {
+					cl = x
+					lenIdx[n] = 0
+				}
+			}
+			if cl != nil {
+				if call != nil && cl != call {
+					return false
+				}
+				call = cl
+				continue
+			}
 			lens = append(lens, n)
 			continue
 		}
@@ -1303,6 +1331,7 @@ func (p *bprover) viaCalleeAt(goal dfact, at *ssa.BasicBlock) bool {
 	}
 	// boolean results of the same call tested on the way to the site
 	guard := map[int]bool{}
+	nilGuard := map[int]bool{}
 	for d := at; d != nil && d.Idom() != nil; d = d.Idom() {
 		id := d.Idom()
 		if len(d.Preds) != 1 || d.Preds[0] != id {
@@ -1322,10 +1351,25 @@ func (p *bprover) viaCalleeAt(goal dfact, at *ssa.BasicBlock) bool {
 		if ex, ok := cond.(*ssa.Extract); ok && ex.Tuple == ssa.Value(call) {
 			guard[ex.Index] = !neg
 		}
+		// a nil test of another result of the same call (cmd, rejection := check(..); if rejection != nil { continue })
+		if bo, ok := cond.(*ssa.BinOp); ok && (bo.Op == token.EQL || bo.Op == token.NEQ) {
+			var other ssa.Value
+			if isNilConst(bo.Y) {
+				other = bo.X
+			} else if isNilConst(bo.X) {
+				other = bo.Y
+			}
+			if ex, ok := other.(*ssa.Extract); ok && ex.Tuple == ssa.Value(call) {
+				nilGuard[ex.Index] = (bo.Op == token.EQL) != neg
+			}
+		}
 	}
 	var gk []string
 	for gi, w := range guard {
 		gk = append(gk, fmt.Sprint(gi, w))
+	}
+	for gi, w := range nilGuard {
+		gk = append(gk, fmt.Sprint("nil", gi, w))
 	}
 	sort.Strings(gk)
 	ai, bi := "0", "0"
@@ -1333,11 +1377,15 @@ func (p *bprover) viaCalleeAt(goal dfact, at *ssa.BasicBlock) bool {
 		ai = fmt.Sprint("r", i)
 	} else if j, ok := lenParam[goal.a]; ok {
 		ai = fmt.Sprint("l", j)
+	} else if j, ok := lenIdx[goal.a]; ok {
+		ai = fmt.Sprint("lr", j)
 	}
 	if i, ok := idx[goal.b]; ok {
 		bi = fmt.Sprint("r", i)
 	} else if j, ok := lenParam[goal.b]; ok {
 		bi = fmt.Sprint("l", j)
+	} else if j, ok := lenIdx[goal.b]; ok {
+		bi = fmt.Sprint("lr", j)
 	}
 	memoKey := fmt.Sprintf("%s|%s-%s<=%d|%v", cf.String(), ai, bi, goal.c, gk)
 	if p.c.viaMemo == nil {
@@ -1347,12 +1395,12 @@ func (p *bprover) viaCalleeAt(goal dfact, at *ssa.BasicBlock) bool {
 		return r
 	}
 	p.c.viaMemo[memoKey] = false // cycles do not prove anything
-	res := p.viaCalleeProve(cf, goal, idx, lenParam, guard)
+	res := p.viaCalleeProve(cf, goal, idx, lenParam, guard, lenIdx, nilGuard)
 	p.c.viaMemo[memoKey] = res
 	return res
 }
 
-func (p *bprover) viaCalleeProve(cf *ssa.Function, goal dfact, idx, lenParam map[string]int, guard map[int]bool) bool {
+func (p *bprover) viaCalleeProve(cf *ssa.Function, goal dfact, idx, lenParam map[string]int, guard map[int]bool, lenIdx map[string]int, nilGuard map[int]bool) bool {
 	calleeProofDepth++
 	defer func() { calleeProofDepth-- }()
 	pr := p.c.newProver(cf)
@@ -1380,6 +1428,29 @@ func (p *bprover) viaCalleeProve(cf *ssa.Function, goal dfact, idx, lenParam map
 					excluded = true // this return hands back the other truth value
 				}
 			}
+			for gi, wantNil := range nilGuard {
+				if gi >= len(rr) || len(rr[gi]) == 0 {
+					continue
+				}
+				all := true
+				for _, v := range rr[gi] {
+					definitelyNil := isNilConst(v)
+					definitelyNot := false
+					switch v.(type) {
+					case *ssa.MakeInterface, *ssa.Alloc, *ssa.MakeSlice, *ssa.MakeMap:
+						definitelyNot = true
+					}
+					if wantNil && !definitelyNot {
+						all = false
+					}
+					if !wantNil && !definitelyNil {
+						all = false
+					}
+				}
+				if all {
+					excluded = true // this return hands back the other nil-ness of the tested result
+				}
+			}
 			if excluded {
 				continue
 			}
@@ -1389,6 +1460,15 @@ func (p *bprover) viaCalleeProve(cf *ssa.Function, goal dfact, idx, lenParam map
 				}
 				if j, ok := lenParam[n]; ok {
 					return []lt{pr.lenOf(cf.Params[j])}
+				}
+				if j, ok := lenIdx[n]; ok {
+					var out []lt
+					if j < len(rr) {
+						for _, v := range rr[j] {
+							out = append(out, pr.lenOf(v))
+						}
+					}
+					return out
 				}
 				var out []lt
 				for _, v := range rr[idx[n]] {
@@ -2592,7 +2672,6 @@ func (c *C) resultLenGE(fn *ssa.Function, k, j int) bool {
 	return false
 }
 
-
 // lockstepFields: fn returns (as result idx) a record it built locally whose slice fields k1 and k2 both start empty and
 // receive the same number of appended elements in every basic block: the two have equal length whatever path was taken.
 func lockstepFields(fn *ssa.Function, idx, k1, k2 int) bool {
@@ -2910,4 +2989,47 @@ func bestSoFarIndex(idx, sl *ssa.Phi) bool {
 		}
 	}
 	return true
+}
+
+// resultGeParam: every value fn returns as result k is at least its integer parameter j (a scanner that starts at a given
+// position and only moves forward). Proved inside fn with the prover; memoised.
+func (c *C) resultGeParam(fn *ssa.Function, k, j int) bool {
+	if fn == nil || fn.Blocks == nil || j >= len(fn.Params) || !isSignedInt(fn.Params[j].Type()) || calleeProofDepth >= 2 {
+		return false
+	}
+	if c.rgpMemo == nil {
+		c.rgpMemo = map[string]int{}
+	}
+	key := fmt.Sprintf("%s|%d|%d", fn.String(), k, j)
+	switch c.rgpMemo[key] {
+	case 1:
+		return true
+	case 2, 3:
+		return false
+	}
+	c.rgpMemo[key] = 3
+	calleeProofDepth++
+	defer func() { calleeProofDepth-- }()
+	res, any := true, false
+	pr := c.newProver(fn)
+	for _, b := range fn.Blocks {
+		for _, in := range b.Instrs {
+			ret, ok := in.(*ssa.Return)
+			if !ok || len(ret.Results) <= k || !isSignedInt(ret.Results[k].Type()) {
+				continue
+			}
+			for _, v := range retResults(ret)[k] {
+				any = true
+				if !pr.ProveLE(pr.lin(fn.Params[j]), pr.lin(v), 0, ret) {
+					res = false
+				}
+			}
+		}
+	}
+	if res && any {
+		c.rgpMemo[key] = 1
+		return true
+	}
+	c.rgpMemo[key] = 2
+	return false
 }
